@@ -286,6 +286,28 @@ def run(ck):
     from ..report import RuleView
     from . import c14
     c14.join_score(RuleView(ck, {"C14.1": "C07.G12"}))
+    ck.clause("C07.G14", "an attribute read in a branch guarded by isinstance(x, K) exists on K (no AttributeError for one of the "
+                         "classes the branch is taken for)")
+    from ..rules.narrow import findings as narrow_findings
+    n_fn = 0
+    n_hit = 0
+    for f in run_reach(ctx):
+        if f.is_lambda:
+            continue
+        n_fn += 1
+        for kind, node, text in narrow_findings(ctx, f):
+            if kind == "missing-attr":
+                n_hit += 1
+                ck.violation("C07.G14", short(f) + ":" + ast.unparse(node), where(f, node), text, found=ast.unparse(node),
+                             required="an attribute every class of the isinstance test defines")
+    ck.floor("C07.G14 functions scanned for attribute reads under isinstance guards", n_fn, 150)
+    if not n_hit:
+        ck.ok("C07.G14", "run path", "src/", f"{n_fn} functions: every attribute read under an isinstance guard exists on the guarded class(es)")
+    ck.clause("C07.G13", "no array or table survives from one molecule (or fragment) to the next: a cached value of another "
+                         "length aborts the run in the next correlation (as C10.1 / C09.3)")
+    from . import c10, c09
+    c10.module_state(RuleView(ck, {"C10.1": "C07.G13"}))
+    c09.persistent_state(ck, "C07.G13")
 
 
 def _unhashable_in_sets(ck, fns):
